@@ -1,8 +1,13 @@
 #!/bin/bash
-# usage: seedtest.sh <prop> <seeddir> [tier]  -- applies <seeddir>/patch.diff to /repo, runs ./check, reverts
-prop=$1; dir=$2; tier=${3:-quick}
+# usage: seedtest.sh <prop> <seeddir> [tier] [harness]  -- runs the property's check against a scratch copy of /repo
+# with <seeddir>/patch.diff applied; evidence and replay files go to a scratch output root.
+prop=$1; dir=$2; tier=${3:-quick}; only=${4:-}
+export GOFLAGS=-mod=mod GOPROXY=off GOSUMDB=off GOTOOLCHAIN=local
 cd /verif
-git -C /repo apply "$dir/patch.diff" || { echo "APPLY FAILED"; exit 3; }
-timeout 1500 ./check $prop $tier > /tmp/seedrun.log 2>&1; rc=$?
-git -C /repo checkout -- . 
-echo "exit=$rc"; grep -E "^VIOLATION|^KNOWN|^PASS|^INCONCL|UNCONFIRMED|ENGINE" /tmp/seedrun.log | cut -c1-260 | head -8
+[ bin/symgo -nt engine/main.go ] || (cd engine && go build -o ../bin/symgo .)
+scratch=/tmp/repo_seedt_$$; out=/tmp/seedoutt_$$
+rm -rf $scratch $out; cp -r /repo $scratch; rm -rf $scratch/.git
+(cd $scratch && patch -p1 -s < $dir/patch.diff) || { echo "APPLY FAILED"; rm -rf $scratch; exit 3; }
+timeout 1800 ./bin/symgo -repo $scratch -verif /verif -out $out -prop $prop -tier $tier ${only:+-harness $only} > /tmp/seedrun_$$.log 2>&1; rc=$?
+echo "exit=$rc"; grep -E "^VIOLATION|^KNOWN|^PASS|^INCONCL|UNCONFIRMED|ENGINE" /tmp/seedrun_$$.log | sed "s#$out##" | cut -c1-260 | head -8
+rm -rf $scratch $out /tmp/seedrun_$$.log
